@@ -35,7 +35,7 @@ def rstep(rng, nadded):
     if r < 0.93:
         return "t:%d" % rng.choice([1, 2, 6, 11])
     poll = rng.choice(["IO", "IO", "I", "O", "0", "E", "IOH"])
-    recvs = rng.choice(["p", "p", "w", "z", "x", "7.p", "1.w"])
+    recvs = rng.choice(["p", "p", "w", "z", "x", "7.p", "1.w", "p.z", "p.z", "9.z", "p.x"])     # also: data, then the close noticed in the same round
     sends = rng.choice(["-", "-", "w", "x"])
     return "net:%s:%s:%s:%s" % (poll, rng.choice("yyyn"), recvs, sends)
 
@@ -43,7 +43,7 @@ def rstep(rng, nadded):
 def gen(rng, tier):
     big = tier == "thorough"
     # exhaustive: every schedule over a small alphabet, cache sizes 1..3
-    alpha = ["a", "run", "srv:ok:0", "srv:ok:1", "srv:status:0:257", "srv:stale:0", "net:IO:y:z:-", "t:11", "srv:errpdu:0:258"]
+    alpha = ["a", "run", "srv:ok:0", "srv:ok:1", "srv:status:0:257", "srv:stale:0", "net:IO:y:z:-", "t:11", "srv:errpdu:0:258", "net:IO:y:p.z:-"]
     maxlen = 5 if not big else 7
     for cache in (1, 2, 3):
         for ln in range(1, maxlen + 1):
@@ -97,7 +97,15 @@ CONFIG.props_module = "KsiVerif.Props.C13"
 CONFIG.required_theorems = ["no_request_returned_twice", "returned_fresh", "reply_matched_by_full_id", "foreign_reply_ignored",
                              "add_cache_full", "add_accepts_into_free_slot", "recv_timeout_only_when_elapsed",
                              "response_processing_keeps_cache", "J_add", "J_run", "J_grow", "grow_keeps_slots"]
-CONFIG.engines = [Engine("c13", ["exec_c13.c"], "drv_c13", gen, wraps=["time"])]
+def gen_h(rng, tier):
+    """the HTTP client's write callback: a reply delivered in 1..6 pieces of sizes around the buffer's growth step (255)"""
+    for _ in range(150 if tier != "thorough" else 3000):
+        k = rng.randrange(1, 7)
+        ps = [rng.randbytes(rng.choice([1, 2, 10, 100, 254, 255, 256, 257, 300, 511, 600, 2000])) for _ in range(k)]
+        yield "hrecv %s" % ".".join(p.hex() for p in ps)
+
+
+CONFIG.engines = [Engine("c13", ["exec_c13.c"], "drv_c13", gen, wraps=["time"]), Engine("c13h", ["exec_c13h.c"], "drv_c13", gen_h)]
 CONFIG.rule = ("the real signing async service (net_async.c) over the real async TCP client on a scripted socket and clock; the scripted "
                "server builds v2 PDUs with an independent TLV writer + OpenSSL HMAC. Schedules over {add, run, valid / status / stale-generation / "
                "unknown-id / bad-MAC / error-PDU / pushed-config / garbage reply for request k, peer close, poll errors, refused connection, "
